@@ -46,6 +46,11 @@ ROOT_TREE = {
     "dir/index.html": b"DIR INDEX",
     "dir/f.txt": b"DIR F",
     "empty": None,
+    # names that contain U+FFFD, an ordinary character (bytes EF BF BD) that some code uses as an error marker
+    "\ufffd.txt": b"REPLACEMENT CHARACTER NAME",
+    "r\ufffdd": None,
+    "r\ufffdd/index.html": b"REPLACEMENT DIR INDEX",
+    "p\ufffd.html": b"REPLACEMENT PAGE",
     # two different files of the same size (every file of the tree gets the same modification time): nothing that is derived
     # from size and time alone may stand for a file
     "twin_a.txt": b"TWIN A", "twin_b.txt": b"TWIN B", "dir/twin_c.txt": b"TWIN C",
@@ -403,6 +408,11 @@ def all_paths(depth):
         yield p
     for p in ("/twin_a.txt", "/twin_b.txt", "/twin_a.txt", "/dir/twin_c.txt", "/twin_b.txt", "/sock", "/sock/", "/sock.html", "/dir/../sock", deep + "/deep.txt", deep, deep + "/", deep + "/deep.txt/", deep + "/index", deep + "/../" + "N" * 60 + "/deep.txt"):
         yield p  # (kept in this order and not de-duplicated: the twins are asked for alternately)
+    for p in ("/\ufffd.txt", "/r\ufffdd/", "/r\ufffdd", "/r\ufffdd/index.html", "/p\ufffd", "/p\ufffd.html", "/\ufffd"):
+        yield p
+    # request lines are not all origin-form: a path without the leading slash (as some servers hand it over unchanged)
+    for p in ("../secret.txt", "../secret", "..", "../", "../root/file.txt", "file.txt", "dir/f.txt", "./../secret.txt", "../root/../secret.txt", "dir/../../secret.txt", "..\\secret.txt"):
+        yield p
     for p in ("", "/", "//", "/root", "/../root/file.txt", "/../rootx/s.txt", "/../root.html", "/..", "/%00", "/file.txt/x", "/" + "a" * 300, "/x/", "/dir/index", "/..name", "/..name/"):
         if p not in seen:
             seen.add(p)
